@@ -147,6 +147,14 @@ class Walk:
             self.live.remove(i)
             self.dead.append(i)
 
+    def headers(self):
+        """serverHeaders without endStream (response headers) for any stream some_id() yields: live ones, and in wild
+        histories finished / cleaned-up / never registered ones (the writer must drop those)."""
+        i = self.some_id()
+        if self.wild and self.dead and self.r.random() < 0.3:
+            i = self.r.choice(self.dead)
+        self.ops.append("sh %d 0 %s 0 0" % (i, self.fields(big_ok=False)))
+
     def cleanup(self):
         i = self.some_id()
         self.ops.append("cl %d %d %d" % (i, self.r.choice([0, 1]), self.r.choice([0, 2, 8])))
@@ -206,6 +214,8 @@ class Walk:
                     self.trailers()
             elif k == "cl":
                 self.cleanup()
+            elif k == "hdr":
+                self.headers()
             elif k == "misc":
                 self.misc()
         # drain phase: open the windows and let the writer run
@@ -230,6 +240,38 @@ PROFILES = {
     "big": {"w": {"new": 4, "data": 25, "tick": 45, "wu": 15, "set": 3, "trailers": 3, "cl": 2, "misc": 1}, "huge": 0.15},
     "control": {"w": {"new": 8, "data": 12, "tick": 15, "wu": 8, "set": 8, "trailers": 6, "cl": 10, "misc": 30}},
 }
+
+
+for _p in PROFILES.values():
+    _p["w"].setdefault("hdr", 3)
+
+
+def after_close_cases(component):
+    """Directed family: every kind of item addressed to a stream AFTER every way that stream can have ended in the writer
+    (cleanupStream with / without RST_STREAM, trailers written at once, trailers written after queued data, client END_STREAM then
+    cleanup), each followed by processData calls. Whatever arrives for a finished stream must not produce a frame for it."""
+    late = ["sh %d 0 0.0,1.0 0 0", "sh %d 0 - 0 0", "sh %d 1 0.0 0 0", "sh %d 1 5.5 1 8", "data %d 5 100 0 1", "data %d 0 0 1 0", "wu %d 1000",
+            "cl %d 0 0"]
+    ends_s = [("cl-rst", ["cl %d 1 8"]), ("cl-norst", ["cl %d 0 0"]), ("trailers-now", ["sh %d 1 0.0 1 0"]), ("trailers-norst", ["sh %d 1 - 0 0"]),
+              ("trailers-queued", ["data %d 5 50 0 1", "sh %d 1 0.0 1 0", "tick", "tick"]),
+              ("trailers-starved-then-reset", ["set 4=3", "data %d 5 50 0 1", "tick", "sh %d 1 0.0 0 0", "cl %d 1 2", "set 4=65535"])]
+    ends_c = [("cl-rst", ["cl %d 1 8"]), ("cl-norst", ["cl %d 0 0"]), ("endstream-cl", ["data %d 5 10 1 1", "tick", "cl %d 0 0"]),
+              ("pending-data-cl", ["data %d 5 70000 0 2", "tick", "cl %d 1 8"])]
+    out = []
+    for side, opener, ends in (("s", "reg %d", ends_s), ("c", "ch %d 1.0 0", ends_c)):
+        for tag, end in ends:
+            ops = ["side " + side]
+            i = 1
+            for l in late:
+                # a bystander stream with pending data shows that the writer keeps working for the others
+                ops += [opener % i, opener % (i + 2), "data %d 5 20 0 1" % (i + 2)]
+                if side == "s":
+                    ops.append("sh %d 0 0.0 0 0" % i)
+                ops += [(e % i) if "%d" in e else e for e in end]
+                ops += [l % i, "tick", "tick", "wu %d 10" % i, "tick"]
+                i += 4
+            out.append(Case(component, ops, "after-close-%s-%s" % (side, tag)))
+    return out
 
 
 def fixed_cases(component):
@@ -280,6 +322,8 @@ def fixed_cases(component):
 def gen_cases(rng, tier, component, wild_share=0.35):
     n_cases = {"quick": 300, "thorough": 9000, "search": 4000}[tier]
     for c in fixed_cases(component):
+        yield c
+    for c in after_close_cases(component):
         yield c
     names = list(PROFILES)
     for k in range(n_cases):
